@@ -58,6 +58,7 @@ Truthy(v) ==
 \* [t |-> "gostr", kind, s]: a Go value that is not a string but has a text form: kind in
 \* bytes ([]byte) | named (type T string) | stringer (String() method) | err (error)
 VGo(kind, s) == [t |-> "gostr", kind |-> kind, s |-> s]
+VBig(digits) == [t |-> "int", i |-> 0, big |-> digits]        \* an integer given by its decimal digits (with a leading - if negative)
 VN(u, kind) == [t |-> "named", u |-> u, kind |-> kind]   \* kind: def | i8 | i64 | u16 | u64 | f32
 \* exact decimals m * 10^-e: canonical text has no trailing zeros, no "-0"
 RECURSIVE Pow10(_)
@@ -100,7 +101,7 @@ NumFmtText(m, e, p, dp, ts) ==
 Printable(v) == v.t \in {"null", "int", "str", "gostr", "dec"}
 TextOf(v) ==
     CASE v.t = "null" -> <<>>
-      [] v.t = "int"  -> IntText(v.i)
+      [] v.t = "int"  -> IF "big" \in DOMAIN v THEN v.big ELSE IntText(v.i)      \* big: the digits of an integer beyond TLC's range
       [] v.t = "str"  -> v.s
       [] v.t = "gostr" -> v.s
       [] v.t = "dec" -> DecText(v.m, v.e)
